@@ -49,10 +49,21 @@ def op_restrict(m, rng, remove=False):
         ix = None
         what = 'remove_elements'
     else:
-        M, ix = m.restrict(el, return_mapping=True)
+        sb, ss = bool(rng.random() < 0.3), bool(rng.random() < 0.3)
+        M, ix = m.restrict(el, return_mapping=True, skip_boundaries=sb, skip_subdomains=ss)
         kept = el
         what = 'restrict'
+        if sb or ss:
+            # the skipped kind is absent (NOT the dictionary of the unrestricted mesh), the other kind is retagged as usual
+            need(not sb or M.boundaries is None, what + ':skip_boundaries', lambda: f'boundaries = {M.boundaries}')
+            need(not ss or M.subdomains is None, what + ':skip_subdomains', lambda: f'subdomains = {M.subdomains}')
+            need(sb or (M.boundaries is None) == (m.boundaries is None), what + ':skip_subdomains-dropped-boundaries', '')
+            need(ss or (M.subdomains is None) == (m.subdomains is None), what + ':skip_boundaries-dropped-subdomains', '')
+            from dataclasses import replace
+            m = replace(m, _boundaries=None if sb else m._boundaries, _subdomains=None if ss else m._subdomains)
     info = {'elements': el.tolist()}
+    if not remove:
+        info['skip'] = [sb, ss]
     check_valid(M, what)
     nv = m.elem.refdom.nnodes
     need(M.t.shape[1] == len(kept), what + ':cell-count', f'{M.t.shape[1]} != {len(kept)}')
